@@ -95,3 +95,10 @@ def multiset_dist(a, b, scale=None):
     D = np.abs(a[:, None] - b[None, :])
     sc = np.maximum(np.abs(a)[:, None], 1e-300) if scale is None else scale
     return float(max((D / sc).min(axis=1).max(), (D / sc).min(axis=0).max()))
+
+
+def unit_component_error(phi):
+    """|largest-magnitude component - 1| (the component itself must equal 1, not only its modulus); rows = shapes if 2-D."""
+    phi = np.atleast_2d(np.asarray(phi))
+    idx = np.argmax(np.abs(phi), axis=1)
+    return np.abs(phi[np.arange(phi.shape[0]), idx] - 1.0)
